@@ -173,6 +173,9 @@ pub struct World {
 	pub style: SyncStyle,
 	/// per node: last update id handed to Persist per channel (live), and as of the last manager write
 	pub live_ids: Vec<BTreeMap<ChannelId, u64>>,
+	/// batch funding in progress: number of FundingGenerationReady events to collect, and those collected
+	pub batch_expected: usize,
+	pub batch_collected: Vec<(ChannelId, PublicKey, u64, bitcoin::ScriptBuf)>,
 	pub mgr_known_ids: Vec<BTreeMap<ChannelId, u64>>,
 	/// payments the last written manager of each node lists as still pending
 	pub mgr_known_pending: Vec<Vec<lightning::types::payment::PaymentHash>>,
@@ -253,6 +256,8 @@ impl World {
 			stale_blocks: BTreeMap::new(),
 			style: SyncStyle::ListenFull,
 			live_ids: vec![BTreeMap::new(); n],
+			batch_expected: 0,
+			batch_collected: Vec::new(),
 			mgr_known_ids: vec![BTreeMap::new(); n],
 			mgr_known_pending: vec![Vec::new(); n],
 			mgr_known_open: vec![Vec::new(); n],
@@ -501,6 +506,25 @@ impl World {
 		for ev in evs {
 			self.obs.push(Obs::Event { node: n, ev: ev.clone() });
 			match ev {
+				Event::FundingGenerationReady {
+					temporary_channel_id, counterparty_node_id, channel_value_satoshis, output_script, ..
+				} if self.batch_expected > 0 => {
+					self.batch_collected.push((temporary_channel_id, counterparty_node_id, channel_value_satoshis, output_script));
+					if self.batch_collected.len() == self.batch_expected {
+						let parts = std::mem::take(&mut self.batch_collected);
+						self.batch_expected = 0;
+						let tx = Transaction {
+							version: Version(2),
+							lock_time: LockTime::ZERO,
+							input: Vec::new(),
+							output: parts.iter().map(|(_, _, v, s)| TxOut { value: Amount::from_sat(*v), script_pubkey: s.clone() }).collect(),
+						};
+						let refs: Vec<(&ChannelId, &PublicKey)> = parts.iter().map(|(c, p, _, _)| (c, p)).collect();
+						let r = self.nodes[n].cm.batch_funding_transaction_generated(&refs, tx.clone());
+						self.obs.push(Obs::Api { node: n, what: "batch_funding_transaction_generated".into(), ok: r.is_ok(), detail: format!("{:?}", r) });
+						self.funding_txs.push(tx);
+					}
+				},
 				Event::FundingGenerationReady {
 					temporary_channel_id, counterparty_node_id, channel_value_satoshis, output_script, ..
 				} => {
